@@ -77,6 +77,7 @@ func runC07(c *harness.Ctx, idx int) {
 		c.Count("op_"+k, int64(n))
 	}
 	c.Count("ops", int64(res.Ops))
+	c.Count("_evaluations", int64(res.Ops))
 	if res.FailThenOK > 0 {
 		c.NonTrivial()
 	}
